@@ -29,6 +29,21 @@ def all_shapes():
 
 SHAPES = all_shapes()          # 1 + 5 + 25 + 125 = 156
 OTHERS = [None, "abc", 3, 2.5, b"xyz", [1.0, 2.0, 3.0], (1, 2), {"a": 1}, object()]
+import collections as _c
+SEQ2 = [b"12", bytearray(b"ab"), range(2), _c.deque([1, 2]), memoryview(b"xy"), "12", {1, 2}, {1: 1, 2: 2},
+        iter([1, 2]), np.int32(5)]
+
+
+def same_size_shapes(req):
+    """other shapes holding exactly as many elements as the required one (beyond the 0..4 extent grid)"""
+    n = int(np.prod(req))
+    out = {(n,), (n, 1), (1, n), (1, 1, n), (n, 1, 1), (1, n, 1)}
+    if len(req) == 2:
+        out |= {req + (1,), (1,) + req, (req[1], req[0]) if req[0] != req[1] else (n,)}
+    if len(req) == 1:
+        out |= {(req[0], 1), (1, req[0])}
+    out.discard(tuple(req))
+    return sorted(out)
 
 
 def arr(shape, dtype, rng):
@@ -147,6 +162,12 @@ def shard_grid(desc, rec):
                 a = arr(shape, dt, rng)
                 exp = "accept" if tuple(shape) == tuple(req) else "refuse"
                 check_arg(rec, name, fn, req, a, f"ndarray{tuple(shape)}:{dt}", exp)
+        for shape in same_size_shapes(tuple(req)):
+            for dt in ("float32", "float64", "int32"):
+                check_arg(rec, name, fn, req, arr(shape, dt, rng), f"ndarray{tuple(shape)}:{dt}:same-size", "refuse")
+        if is_vp_elem:    # only lists, tuples and arrays are documented for viewports
+            for o in SEQ2:
+                check_arg(rec, name, fn, req, o, f"{type(o).__name__}:two-element-non-list", "refuse")
         for o in OTHERS:
             exp = "refuse"
             if is_vp_elem and isinstance(o, tuple) and len(o) == 2:
@@ -240,7 +261,7 @@ def shard_random_combo(desc, rec):
         dt = rng.choice(DTYPES)
         a = arr(shape, dt, rng)
         if rng.random() < 0.3:
-            a = np.asfortranarray(a) if a.ndim >= 2 else a[::1]
+            a = np.asfortranarray(a) if a.ndim >= 2 else (a[::1] if a.ndim == 1 else a)
         exp = "accept" if tuple(shape) == tuple(req) else "refuse"
         check_arg(rec, name, fn, req, a, f"ndarray{tuple(shape)}:{dt}:r", exp)
 
